@@ -144,10 +144,15 @@ class Runner:
                 return tr
             for (a, n) in labels:
                 ev = {"a": a, "n": n, "exc": "", "ref": {"pay": "skip", "pay_ell": "skip", "pay_0": "skip"},
-                      "prepos": [[0], [0]]}
+                      "prepos": [[0], [0]], "srcsame": True, "again": True}
                 try:
+                    before = json.dumps(self.obs(obj), sort_keys=True)
                     new = self.step(obj, a, n, E, P, ev)
                     ev["obs"] = self.obs(new)
+                    # a conversion builds a NEW object: the source still denotes what it did, and converting it once more gives the same
+                    ev["srcsame"] = json.dumps(self.obs(obj), sort_keys=True) == before
+                    again = self.step(obj, a, n, E, P, {"ref": {}, "prepos": None})
+                    ev["again"] = json.dumps(self.obs(again), sort_keys=True) == json.dumps(ev["obs"], sort_keys=True)
                     obj = new
                 except Exception as ex:
                     ev["exc"] = "%s: %s" % (type(ex).__name__, str(ex)[:120])
